@@ -155,5 +155,5 @@ def within(ctx, got, lo, hi, clause, tol, **detail):
     excess = np.maximum(np.maximum(lo - got, got - hi), 0.0)
     if excess.size:
         k = int(np.argmax(excess))
-        detail = dict(detail, got=float(got.ravel()[k]), lower=float(lo.ravel()[k]), upper=float(hi.ravel()[k]))
+        detail = dict(detail, value=float(got.ravel()[k]), lower=float(lo.ravel()[k]), upper=float(hi.ravel()[k]))
     return ctx.close(excess, np.zeros_like(excess), clause, rtol=0.0, atol=tol, **detail)
